@@ -2,6 +2,7 @@
 # seed_run.sh <patch.diff> <property-id>...   — apply a seeded change to /repo, run the quick checks, undo it.
 p=$1; shift
 cd /verif
+export VERIF_EVIDENCE_DIR=/verif/run/seed-evidence   # evidence/ only ever describes the unchanged tree
 git -C /repo apply $p || { echo APPLY-FAILED; exit 2; }
 for id in "$@"; do ./check $id 2>&1 | grep -E "^(OK|VIOLATION|KNOWN|  failing|  broken)" | cut -c1-400 | head -8; done
 git -C /repo checkout -- . ; git -C /repo status --short | head -3
